@@ -355,6 +355,12 @@ theorem wrWriteAll_runWriter (k : Nat) (calls : List Bytes) :
          if (runWriter k calls).2 then GoErr.nil else GoErr.other) := by
   simpa using wrWriteAll_runWriter' k [] calls
 
+theorem wrWriteAll_singleton (w : Wr) (c : Bytes) : wrWriteAll w [c] = wrWrite w c := by
+  simp only [wrWriteAll]
+  split
+  · rename_i h; exact Prod.ext rfl h.symm
+  · rfl
+
 theorem fastq_Write_eq (hF : GoSrc.fastq_Write_Found = true) (n s q : Bytes) (w : Wr) :
     GoSrc.fastq_Write n s q w
       = some ((wrWrite w (Fastq.encode ⟨n, s, q⟩)).2, (wrWrite w (Fastq.encode ⟨n, s, q⟩)).1) := by
